@@ -193,7 +193,8 @@ class Occ:
 
 
 def walk(e, program):
-    """returns (type occurrences, function declarations, class declarations) reachable from `program`.
+    """returns (type occurrences, function declarations, class declarations, declared class names) of everything
+    reachable from `program`.
     fscope / cscope: names of the type parameters declared by the enclosing functions / classes."""
     tp, ast = e.tp, e.ast
     Node, Type = e.node.Node, tp.Type
@@ -510,7 +511,7 @@ def _job(job):
 TIERS = {
     # base seeds, extra seeds from VERIF_SEED, cli seeds, cli languages per combination,
     # budget per generation (objects deep-copied, cpu seconds as safety net), wall deadline (s)
-    'quick': (BASE_SEEDS[:8], 1, [1], 1, (60000, 30), 40),
+    'quick': (BASE_SEEDS[:8], 1, [1], 1, (60000, 30), 30),
     'thorough': (BASE_SEEDS, 6, [1, 2, 3], 4, (400000, 240), 780),
 }
 
@@ -639,15 +640,19 @@ def run(tier, seed, stop_first=False, workers=None, stop_prefix='bounded[', stop
                                     parameterized_functions=st['parameterized_functions']))
         for v in r['violations']:
             name = check_name(v)
-            if name in seen_kinds:
-                seen_kinds[name]['count'] += 1
+            size = st['types'] if st else 0
+            old = seen_kinds.get(name)
+            if old is not None and old['types_walked'] <= size:
+                old['count'] += 1
                 continue
+            # one entry per kind: the witness is the smallest program (type occurrences walked) showing it
             rec = dict(check=name, function=function_of(v), language=lang, seed=s, switches=k,
-                       switch_names=[x for x in SWITCHES if combo[x]], via_cli=via_cli,
+                       switch_names=[x for x in SWITCHES if combo[x]], via_cli=via_cli, types_walked=size,
                        path=v['path'], offending=v['type'], origin=v.get('origin'),
-                       expected='no such occurrence (%s)' % v['kind'], actual=v['detail'], count=1)
+                       expected='no such occurrence (%s)' % v['kind'], actual=v['detail'],
+                       count=(old['count'] + 1) if old else 1)
             seen_kinds[name] = rec
-            violations.append(rec)
+    violations = list(seen_kinds.values())
     rule = (desc + '; every program is walked over every type occurrence reachable from the Program object '
             '(declarations, every attribute of every AST node, symbol table; recursively through type arguments, '
             'bounds, supertypes and type constructors) and the six clauses of the statement are evaluated '
